@@ -303,6 +303,33 @@ def run(rep, tier, root=None):
                                       "not taken and the result is nan everywhere" % "/".join(names_), fn_.where(h_))
     if not n_g10:
         rep.ok("G10.special-case-by-exception", "propagators: no special case is dispatched through ZeroDivisionError")
+    # G8: the coordinate axes share the transforms' origin.  ft2 / ift2 take sample N//2 as the origin (ifftshift before,
+    # fftshift after); an axis arange(-N/2, N/2) * d has its zero at index N/2, which is a sample only for even N - for odd N
+    # every coordinate is half a sample off, the chirps are evaluated on a displaced grid and the beam moves sideways by
+    # lambda z / (2 N d)
+    for name_ in NPARAMS:
+        fn_ = ix.func(MOD, name_)
+        Ig = Interp(ix, square=True)
+        vals_ = [v_ for c_, n__, v_ in Ig.paths(fn_, Ig.symbolic_args(fn_, {fn_.params[0]: ("array", "field", "complex")}), split="deep") if isinstance(v_, Rat)]
+        Nn_ = Rat.sym("N[%s]" % fn_.params[0], ("int", "size"))
+        half_ = set()
+        whole_ = set()
+        for v_ in vals_:
+            for a_ in v_.atoms(True):
+                if isinstance(a_, Fn) and a_.name == "arange" and len(a_.args) == 3 and isinstance(a_.args[0], Rat) and a_.args[0].depends_on(Nn_.single_atom()):
+                    lo_ = a_.args[0]
+                    if same_value(lo_, -Nn_ / 2):
+                        half_.add(nf(lo_, 40))
+                    else:
+                        whole_.add(nf(lo_, 40))
+        if half_:
+            rep.violation("G8.grid-origin", "%s: coordinate axes start at %s" % (fn_.fq, sorted(half_)[0]),
+                          "the coordinate axes are arange(-N/2, N/2) * spacing: their zero is at index N/2, which for odd N lies between two "
+                          "samples, while ft2 / ift2 take sample N//2 as the origin - every chirp and transfer function is evaluated half a "
+                          "sample off, an on-axis beam is displaced by lambda z / (2 N d), and the propagators disagree with each other and "
+                          "with the analytic solutions (N = 129: 0.06 - 0.27 in relative norm; exact for even N)", fn_.where())
+        elif vals_:
+            rep.ok("G8.grid-origin", fn_.fq + ": coordinate axes have their zero at sample N//2 for every N")
     # G9: a constant added to a squared radius inside a chirp is a constant phase exp(i k (1 - m) / (2 z) eps), not a harmless
     # guard: k / z is large
     I_eps = Interp(ix, square=True)
